@@ -150,3 +150,291 @@ V('v02.s6', 'C02', 'S', None, 'method-form reduction', (MODELS, ST, 'np.all(np.a
 V('v02.s7', 'C02', 'S', None, 'not any(>=)', (MODELS, ST, 'np.all(np.abs(diff) < tol)', 'not np.any(np.abs(diff) >= tol)'))
 V('v02.i1', 'C02', 'I', None, 'norm-based convergence test',
   (MODELS, ST, 'np.all(np.abs(diff) < tol)', 'np.linalg.norm(diff, np.inf) < tol'))
+
+# ---------------------------------------------------------------------------
+# C06
+# ---------------------------------------------------------------------------
+V('v06.1', 'C06', 'F', 'C06.R1', "literal 'S'", (MODELS, ST, 'status = SolutionStatus.SKIPPED.value', "status = 'S'"))
+V('v06.2', 'C06', 'F', 'C06.R3', 'current tested before previous',
+  (MODELS, ST, """            if np.any(~np.isfinite(previous_values)):
+                continue
+
+""", ''),
+  (MODELS, ST, """            if iteration < min_iter:
+                continue
+
+            diff =""", """            if np.any(~np.isfinite(previous_values)):
+                continue
+
+            if iteration < min_iter:
+                continue
+
+            diff ="""))
+V('v06.3', 'C06', 'F', 'C06.R2', 'ignore row: iteration < max_iter',
+  (MODELS, ST, """                elif errors == 'ignore':
+                    if iteration == max_iter:""", """                elif errors == 'ignore':
+                    if iteration < max_iter:"""))
+V('v06.4', 'C06', 'F', 'C06.R2', 'skip row continues',
+  (MODELS, ST, "                    status = SolutionStatus.SKIPPED.value\n                    break", "                    status = SolutionStatus.SKIPPED.value\n                    continue"))
+V('v06.5', 'C06', 'F', 'C06.R4', '_evaluate handler drops from e',
+  (MODELS, ST, """                        f'Error after {iteration} iterations(s) '
+                        f'in period with label: {self.span[t]} (index: {t})'
+                    ) from e""", """                        f'Error after {iteration} iterations(s) '
+                        f'in period with label: {self.span[t]} (index: {t})'
+                    )"""))
+V('v06.6', 'C06', 'F', 'C06.R4', '_evaluate handler drops the E store',
+  (MODELS, ST, """                    if errors == 'raise':
+                        self.status[t] = SolutionStatus.ERROR.value
+                        self.iterations[t] = iteration
+
+                    raise SolutionError(
+                        f'Error after""", """                    raise SolutionError(
+                        f'Error after"""))
+V('v06.7', 'C06', 'F', 'C06.R4', 'solve_t_after outside try',
+  (MODELS, ST, """                    try:
+                        self.solve_t_after(
+                            t,
+                            errors=errors,
+                            catch_first_error=catch_first_error,
+                            iteration=iteration,
+                            **kwargs,
+                        )
+                    except Exception as e:
+                        raise SolutionError(
+                            f'Error in `solve_t_after()` '
+                            f'in period with label: {self.span[t]} (index: {t})'
+                        ) from e
+""", """                    self.solve_t_after(
+                        t,
+                        errors=errors,
+                        catch_first_error=catch_first_error,
+                        iteration=iteration,
+                        **kwargs,
+                    )
+"""))
+V('v06.8', 'C06', 'F', 'C06.R5', 'pre-existing check after solve_t_before',
+  (MODELS, ST, """        if errors == 'raise' and np.any(~np.isfinite(current_values)):
+            raise SolutionError(
+                f'Pre-existing NaNs or infinities found '
+                f'in one or more `check` variables '
+                f'in period with label: {self.span[t]} (index: {t})'
+            )
+""", ''),
+  (MODELS, ST, "        iteration = 0\n", """        if errors == 'raise' and np.any(~np.isfinite(current_values)):
+            raise SolutionError('Pre-existing NaNs or infinities found')
+
+        iteration = 0
+"""))
+V('v06.8b', 'C06', 'F', 'C06.R5', 'pre-existing check regardless of errors',
+  (MODELS, ST, "if errors == 'raise' and np.any(~np.isfinite(current_values)):\n            raise SolutionError(\n                f'Pre-existing",
+   "if np.any(~np.isfinite(current_values)):\n            raise SolutionError(\n                f'Pre-existing"))
+V('v06.9', 'C06', 'F', 'C06.R6', "_evaluate block: 'error' under errors == 'raise' only",
+  (MODELS, ST, """                if errors == 'raise' and catch_first_error:
+                    # Immediately raise""", """                if errors == 'raise':
+                    # Immediately raise"""))
+V('v06.9b', 'C06', 'F', 'C06.R6', "after block: filters swapped",
+  (MODELS, ST, """                    if errors == 'raise' and catch_first_error:
+                        warnings.simplefilter('error')
+                    else:
+                        warnings.simplefilter('always')
+""", """                    if errors == 'raise' and catch_first_error:
+                        warnings.simplefilter('always')
+                    else:
+                        warnings.simplefilter('error')
+"""))
+V('v06.10', 'C06', 'F', 'C06.R1', "SKIPPED = 'X'", (IFACE, 'SolutionStatus', "SKIPPED = 'S'", "SKIPPED = 'X'"))
+V('v06.11', 'C06', 'F', 'C06.R2', "raise row stores F", (MODELS, ST, """                if errors == 'raise':
+                    self.status[t] = SolutionStatus.ERROR.value
+                    self.iterations[t] = iteration
+
+                    raise SolutionError(
+                        f'Numerical""", """                if errors == 'raise':
+                    self.status[t] = SolutionStatus.FAILED.value
+                    self.iterations[t] = iteration
+
+                    raise SolutionError(
+                        f'Numerical"""))
+V('v06.12', 'C06', 'F', 'C06.R2', "raise row raises ValueError", (MODELS, ST, """                    raise SolutionError(
+                        f'Numerical solution error""", """                    raise ValueError(
+                        f'Numerical solution error"""))
+V('v06.13', 'C06', 'F', 'C06.R2', "invalid errors silently ignored", (MODELS, ST, """                else:
+                    raise ValueError(f'Invalid `errors` argument: {errors}')
+""", """                else:
+                    continue
+"""))
+V('v06.14', 'C06', 'F', 'C06.R4', "linker KeyError without from e", (LINKERS, 'BaseLinker.solve_t', """raise KeyError(f"'{name}' not found in list of submodels") from e""", """raise KeyError(f"'{name}' not found in list of submodels")"""))
+V('v06.15', 'C06', 'F', 'C06.R1', "fortran wrapper literal status", (FORTRAN, 'FortranEngine.solve_t', "status = SolutionStatus.SKIPPED.value", "status = 's'"))
+V('v06.16', 'C06', 'F', 'C06.R7', 'solve() stores True always', (IFACE, 'SolverMixin.solve', 'solved[i] = self.solve_t(', 'solved[i] = True; self.solve_t('))
+V('v06.s1', 'C06', 'S', None, 'filter via conditional expression',
+  (MODELS, ST, """                if errors == 'raise' and catch_first_error:
+                    # Immediately raise an exception in the event of a
+                    # numerical solution error
+                    warnings.simplefilter('error')
+                else:
+                    warnings.simplefilter('always')
+""", """                warnings.simplefilter('error' if errors == 'raise' and catch_first_error else 'always')
+"""))
+V('v06.s2', 'C06', 'S', None, 'not all(isfinite)', (MODELS, ST, 'if np.any(~np.isfinite(previous_values)):', 'if not np.all(np.isfinite(previous_values)):'))
+
+# ---------------------------------------------------------------------------
+# C04
+# ---------------------------------------------------------------------------
+V('v04.1', 'C04', 'F', 'C04.R1', 'E status stored at t - 1',
+  (MODELS, ST, """                if errors == 'raise':
+                    self.status[t] = SolutionStatus.ERROR.value
+                    self.iterations[t] = iteration
+
+                    raise SolutionError(
+                        f'Numerical""", """                if errors == 'raise':
+                    self.status[t - 1] = SolutionStatus.ERROR.value
+                    self.iterations[t] = iteration
+
+                    raise SolutionError(
+                        f'Numerical"""))
+V('v04.2', 'C04', 'F', 'C04.R1', 'offset copy iterates self.names', (MODELS, ST, 'for name in self.endogenous:', 'for name in self.names:'))
+V('v04.3', 'C04', 'F', 'C04.R3', 'revert F12: no feasibility guard',
+  (MODELS, ST, """        if t_position < self.lags or t_position > len(self.span) - 1 - self.leads:
+            raise IndexError(
+                f'Position `t` ({t}) cannot accommodate the lags ({self.lags}) '
+                f'and leads ({self.leads}) of the current model instance, '
+                f'which has {len(self.span)} period(s) in its span'
+            )
+""", ''))
+V('v04.3b', 'C04', 'F', 'C04.R3', 'guard off by one (<= lags)',
+  (MODELS, ST, 't_position < self.lags or', 't_position <= self.lags or'))
+V('v04.3c', 'C04', 'F', 'C04.R3', 'guard lags/leads crossed',
+  (MODELS, ST, 't_position < self.lags or t_position > len(self.span) - 1 - self.leads', 't_position < self.leads or t_position > len(self.span) - 1 - self.lags'))
+V('v04.3d', 'C04', 'F', 'C04.R3', 'guard on raw t (negative positions unchecked)',
+  (MODELS, ST, 't_position < self.lags or t_position > len(self.span) - 1 - self.leads', 't < self.lags or t > len(self.span) - 1 - self.leads'))
+V('v04.4', 'C04', 'F', 'C04.R2', 'feasibility guard after the offset copy',
+  (MODELS, ST, """        if t_position < self.lags or t_position > len(self.span) - 1 - self.leads:
+            raise IndexError(
+                f'Position `t` ({t}) cannot accommodate the lags ({self.lags}) '
+                f'and leads ({self.leads}) of the current model instance, '
+                f'which has {len(self.span)} period(s) in its span'
+            )
+""", ''),
+  (MODELS, ST, "        status = SolutionStatus.UNSOLVED.value\n        current_values = get_check_values()\n",
+   "        if t_position < self.lags or t_position > len(self.span) - 1 - self.leads:\n            raise IndexError('infeasible')\n\n        status = SolutionStatus.UNSOLVED.value\n        current_values = get_check_values()\n"))
+V('v04.5', 'C04', 'F', 'C04.R3', 'template: evaluate loses the lags guard',
+  (FORTRAN, 'FORTRAN_TEMPLATE', """  ! Check that `index` allows for enough lags and leads
+  if(index <= lags) then
+     error_code = index_error_lags
+     return
+  else if(index > (ncols - leads)) then
+     error_code = index_error_leads
+     return
+  end if
+
+  ! ---------------------------------------------------------------------------
+{equations}""", """  ! Check that `index` allows for enough leads
+  if(index > (ncols - leads)) then
+     error_code = index_error_leads
+     return
+  end if
+
+  ! ---------------------------------------------------------------------------
+{equations}"""))
+V('v04.5b', 'C04', 'F', 'C04.R3', 'template: leads guard >= (rejects a feasible period)',
+  (FORTRAN, 'FORTRAN_TEMPLATE', """  else if(index > (ncols - leads)) then
+     error_code = index_error_leads
+     return
+  end if
+
+  ! ---------------------------------------------------------------------------
+{equations}""", """  else if(index >= (ncols - leads)) then
+     error_code = index_error_leads
+     return
+  end if
+
+  ! ---------------------------------------------------------------------------
+{equations}"""))
+V('v04.6', 'C04', 'F', 'C04.R1', 'template: replace writes column index - 1',
+  (FORTRAN, 'FORTRAN_TEMPLATE', 'solved_values(endogenous(i), index) = 0.0', 'solved_values(endogenous(i), index - 1) = 0.0'))
+V('v04.7', 'C04', 'F', 'C04.R1', 'linker stamps submodels at t + 1',
+  (LINKERS, 'BaseLinker.solve_t', 'submodel.status[t] = status', 'submodel.status[t + 1] = status'))
+V('v04.8', 'C04', 'F', 'C04.R1', 'check values read at t - 1', (MODELS, ST, "return np.array([self.__dict__['_' + name][t] for name in self.check])", "return np.array([self.__dict__['_' + name][t - 1] for name in self.check])"))
+V('v04.9', 'C04', 'F', 'C04.R1', 'template: solve_t calls evaluate with t', (FORTRAN, 'FORTRAN_TEMPLATE', 'call evaluate(previous_values, index, solved_values, error_code, nrows, ncols)', 'call evaluate(previous_values, t, solved_values, error_code, nrows, ncols)'))
+V('v04.s1', 'C04', 'S', None, 'guard rewritten equivalently',
+  (MODELS, ST, 't_position < self.lags or t_position > len(self.span) - 1 - self.leads', 't_position + 1 <= self.lags or t_position >= len(self.span) - self.leads'))
+
+# ---------------------------------------------------------------------------
+# C08
+# ---------------------------------------------------------------------------
+LT = 'BaseLinker.solve_t'
+V('v08.1', 'C08', 'F', 'C08.R3', 'revert F10: squared differences',
+  (LINKERS, LT, 'if all(np.all(np.abs(v) < tol) for v in diff.values()):', 'if all(np.all(v**2 < tol) for v in diff.values()):'))
+V('v08.1b', 'C08', 'F', 'C08.R3', 'revert F10 verbatim',
+  (LINKERS, LT, '            if all(np.all(np.abs(v) < tol) for v in diff.values()):', '            diff_squared = {k: v**2 for k, v in diff.items()}\n\n            if all(np.all(v < tol) for v in diff_squared.values()):'))
+V('v08.1c', 'C08', 'F', 'C08.R3', 'any submodel suffices', (LINKERS, LT, 'if all(np.all(np.abs(v) < tol) for v in diff.values()):', 'if any(np.all(np.abs(v) < tol) for v in diff.values()):'))
+V('v08.2', 'C08', 'F', 'C08.R1', 'post-hook before the submodel passes',
+  (LINKERS, LT, """            self.evaluate_t(
+                t,
+                submodels=submodels,
+                errors=errors,
+                catch_first_error=catch_first_error,
+                iteration=iteration,
+                **kwargs,
+            )
+            self.evaluate_t_after(
+                t,
+                submodels=submodels,
+                errors=errors,
+                catch_first_error=catch_first_error,
+                iteration=iteration,
+                **kwargs,
+            )
+""", """            self.evaluate_t_after(
+                t,
+                submodels=submodels,
+                errors=errors,
+                catch_first_error=catch_first_error,
+                iteration=iteration,
+                **kwargs,
+            )
+            self.evaluate_t(
+                t,
+                submodels=submodels,
+                errors=errors,
+                catch_first_error=catch_first_error,
+                iteration=iteration,
+                **kwargs,
+            )
+"""))
+V('v08.3', 'C08', 'F', 'C08.R2', 'evaluate_t iterates all submodels', (LINKERS, 'BaseLinker.evaluate_t', 'for name in submodels:', "for name in self.__dict__['submodels']:"))
+V('v08.4', 'C08', 'F', 'C08.R2', 'no iteration increment', (LINKERS, 'BaseLinker.evaluate_t', '            submodel.iterations[t] += 1\n', ''))
+V('v08.5', 'C08', 'F', 'C08.R4', 'stamp all submodels',
+  (LINKERS, LT, """        for name in submodels:
+            submodel = self.__dict__['submodels'][name]
+            submodel.status[t] = status""", """        for name in self.__dict__['submodels']:
+            submodel = self.__dict__['submodels'][name]
+            submodel.status[t] = status"""))
+V('v08.6', 'C08', 'F', 'C08.R3', "linker's own check values omitted",
+  (LINKERS, LT, """            check_values = {
+                '_': np.array([self.__dict__['_' + name][t] for name in self.check]),
+            }""", """            check_values = {}"""))
+V('v08.6b', 'C08', 'F', 'C08.R3', 'all submodels checked, not the selection',
+  (LINKERS, LT, """                if k in submodels:
+                    check_values[k] = np.array(
+                        [submodel[name][t] for name in submodel.check]
+                    )""", """                check_values[k] = np.array(
+                    [submodel[name][t] for name in submodel.check]
+                )"""))
+V('v08.7', 'C08', 'F', 'C08.R6', 'lags folded with min', (LINKERS, 'BaseLinker.__init__', 'lags =  max(lags, comparator.LAGS)', 'lags =  min(lags, comparator.LAGS)'))
+V('v08.7b', 'C08', 'F', 'C08.R6', 'leads folded from LAGS', (LINKERS, 'BaseLinker.__init__', 'leads = max(leads, comparator.LEADS)', 'leads = max(leads, comparator.LAGS)'))
+V('v08.8', 'C08', 'F', 'C08.R6', 'revert F17: raw span comparison', (LINKERS, 'BaseLinker.__init__', 'if list(comparator.span) != list(base.span):', 'if comparator.span != base.span:'))
+V('v08.9', 'C08', 'F', 'C08.R7', 'revert F1b', (LINKERS, LT, '        iteration = 0\n\n', ''))
+V('v08.10', 'C08', 'F', 'C08.R5', 'unknown id: handler swallows', (LINKERS, LT, """            except KeyError as e:
+                raise KeyError(f"'{name}' not found in list of submodels") from e""", """            except KeyError as e:
+                continue"""))
+V('v08.11', 'C08', 'F', 'C08.R4', 'iteration reset dropped', (LINKERS, LT, '            submodel.iterations[t] = 0\n', '            pass\n'))
+V('v08.12', 'C08', 'F', 'C08.R1', 'evaluate_t without the selection',
+  (LINKERS, LT, """            self.evaluate_t(
+                t,
+                submodels=submodels,""", """            self.evaluate_t(
+                t,"""))
+V('v08.13', 'C08', 'F', 'C08.R3', 'gate <=', (LINKERS, LT, 'if iteration < min_iter:', 'if iteration <= min_iter:'))
+V('v08.14', 'C08', 'F', 'C08.R4', 'final iterations = max_iter', (LINKERS, LT, '        self.iterations[t] = iteration\n', '        self.iterations[t] = max_iter\n'))
+V('v08.15', 'C08', 'F', 'C08.R6', '_LAGS receives leads', (LINKERS, 'BaseLinker.__init__', "self.__dict__['_LAGS'] = lags", "self.__dict__['_LAGS'] = leads"))
+V('v08.s1', 'C08', 'S', None, 'tuple comparison of spans', (LINKERS, 'BaseLinker.__init__', 'if list(comparator.span) != list(base.span):', 'if tuple(comparator.span) != tuple(base.span):'))
+V('v08.s2', 'C08', 'S', None, 'np.absolute', (LINKERS, LT, 'np.all(np.abs(v) < tol)', 'np.all(np.absolute(v) < tol)'))
